@@ -253,6 +253,11 @@ def mutant_jobs(prop, repo):
     # whole-tree twins on control flow: early exits written as if/else, two-armed ifs with swapped arms
     jobs.append(("twin", "nest-else:whole-tree", ("*", "nest_else")))
     jobs.append(("twin", "swap-arms:whole-tree", ("*", "swap_arms")))
+    # whole-tree twins on idiom: self.p <-> self.operand("p") for unshadowed parameters, isinstance tuples split into `or`,
+    # dict(...) calls written as literals
+    jobs.append(("twin", "operand-access:whole-tree", ("*", "operand_access")))
+    jobs.append(("twin", "split-isinstance:whole-tree", ("*", "split_isinstance")))
+    jobs.append(("twin", "dict-literals:whole-tree", ("*", "dict_literals")))
     for kind, jid, rule_id, rel, src in generate(model):
         try:
             ast.parse(src)
